@@ -29,7 +29,9 @@ def run(ctx):  # noqa: C901
     for h in ("_min_error_primal", "_min_error_dual"):
         sites = calls_from(m, pd, f"ppt_distinguishability.{h}")
         if not sites:
-            ctx.ob("R-THREAD", pd, f"{h} called", False, "helper never called")
+            # selected through a local alias (`f = A if primal else B; f(..)`) or a dispatch table: the helper's name is still read -- not decided here
+            named = any(isinstance(x, ast.Name) and x.id == h and isinstance(x.ctx, ast.Load) for x in walk_no_nested(pd.node))
+            ctx.ob("R-THREAD", pd, f"{h} called", None if named else False, "selected through an alias: the call is not followed" if named else "helper never called", required=not named)
             continue
         c, cal = sites[0]
         b = m.bind(c, cal.func)
@@ -77,6 +79,16 @@ def run(ctx):  # noqa: C901
         psd = [c for c in reach if c.rel == ">>" and c.rhs == ("c", 0) and c.loops and c.loops[0][1] == ("n", "measurements") and c.lhs == ("n", c.loops[0][0][0])]
         ctx.ob("R-SDP", pp, "every measurement operator PSD", bool(psd), "[M >> 0 for M in measurements]" if psd else "missing")
         comp = [c for c in reach if c.rel == "==" and ("call", "picos.sum", (("n", "measurements"),), ()) in (c.lhs, c.rhs) and any(x[0] == "call" and x[1] == "picos.I" for x in (c.lhs, c.rhs))]
+        if not comp:
+            # the constraint object bound to a local first: `completeness = picos.sum(M) == picos.I(d); problem.add_constraint(completeness)`
+            Npp_ = Normalizer(m, pp, inline=False)
+            for a_ in walk_no_nested(pp.node):
+                if isinstance(a_, ast.Assign) and len(a_.targets) == 1 and isinstance(a_.targets[0], ast.Name) and isinstance(a_.value, ast.Compare) and len(a_.value.ops) == 1 and isinstance(a_.value.ops[0], ast.Eq):
+                    l_, r_ = Npp_(a_.value.left), Npp_(a_.value.comparators[0])
+                    if ("call", "picos.sum", (("n", "measurements"),), ()) in (l_, r_) and any(x[0] == "call" and x[1] == "picos.I" for x in (l_, r_)):
+                        nm_ = a_.targets[0].id
+                        if any(isinstance(c_, ast.Call) and getattr(c_.func, "attr", "") == "add_constraint" and c_.args and isinstance(c_.args[0], ast.Name) and c_.args[0].id == nm_ for c_ in walk_no_nested(pp.node)):
+                            comp = [a_]
         ctx.ob("R-SDP", pp, "measurement operators sum to the identity", bool(comp), "sum(M) == I(d)" if comp else "completeness missing or weakened")
         ppt = [c for c in reach if c.rel == ">>" and c.rhs == ("c", 0) and c.lhs[0] == "call" and c.lhs[1] == "picos.partial_transpose"]
         okp = False
@@ -88,9 +100,11 @@ def run(ctx):  # noqa: C901
             every = c.loops and c.loops[0][1] == ("n", "measurements") and op == ("n", c.loops[0][0][0]) and not getattr(c.loops[0][2], "ifs", [])
             thr = d.get("subsystems") == ("n", "subsystems") and d.get("dimensions") == ("n", "dimensions")
             okp = bool(every and thr)
+            if every and not thr and "**" in d:
+                okp = None  # keyword arguments handed over as a dict (**kwargs): not followed
             det = "PT(M) >> 0 for every M with the caller's subsystems and dimensions" if okp else \
                 ("the PPT constraint is not imposed on every measurement operator" if not every else "the PPT constraint ignores the caller's subsystems / dimensions")
-        ctx.ob("R-SDP", pp, "PPT constraint on every measurement operator with the caller's bipartition", okp, det, ppt[0].node if ppt else None)
+        ctx.ob("R-SDP", pp, "PPT constraint on every measurement operator with the caller's bipartition", okp, det, ppt[0].node if ppt else None, required=okp is not None)
         d = sk.dangling()
         ctx.ob("R-SDP", pp, "S1 every constraint reaches the problem", not d, "ok" if not d else f"`{unparse(d[0].node)[:50]}` dropped")
         _objective_pairing(ctx, pp, p, ("probs", "dms", "measurements"))
@@ -127,15 +141,23 @@ def run(ctx):  # noqa: C901
                 pt_ok = rhs[0] == "call" and rhs[1] == "picos.partial_transpose" and (rhs[2][0] if rhs[2] else None) == ("n", q) and \
                     dq.get("subsystems") == ("n", "subsystems") and dq.get("dimensions") == ("n", "dimensions")
                 okf = bool(rel == ">>" and shape_ok and pt_ok)
+                if rel == ">>" and shape_ok and not pt_ok and rhs[0] == "call" and not str(rhs[1]).startswith("picos."):
+                    okf = None  # the partial transpose is taken by a helper of the module: not followed here
                 det = "Y - p_i rho_i >> PT(Q_i), same i, caller's bipartition" if okf else \
                     (f"inequality direction is {rel}" if rel != ">>" else "left side is not Y - probs[i]*rho(vectors[i])" if not shape_ok else "right side is not PT(Q_i) with the caller's subsystems/dimensions")
             else:
                 det = "the dual inequalities do not range over every (i, Q_i)"
-        ctx.ob("R-SDP", dd, "Y - p_i rho_i >= T(Q_i) for every state", okf, det, fam[0].node if fam else None)
+        ctx.ob("R-SDP", dd, "Y - p_i rho_i >= T(Q_i) for every state", okf, det, fam[0].node if fam else None, required=okf is not None)
         qpsd = [c for c in reach if c.rel == ">>" and c.rhs == ("c", 0) and c.loops and c.loops[0][1] == ("n", "q_vars") and c.lhs == ("n", c.loops[0][0][0])]
         ctx.ob("R-SDP", dd, "Q_i >= 0 for every state", bool(qpsd), "[Q >> 0 for Q in q_vars]" if qpsd else "missing")
         qv = next((v for v in sd.vars if v.name == "q_vars"), None)
-        okq = qv is not None and qv.loops and qv.loops[0][1] == ("call", "builtins.range", (("call", "builtins.len", (("n", "vectors"),), ()),), ())
+        LV_ = ("call", "builtins.len", (("n", "vectors"),), ())
+        okq = qv is not None and qv.loops and qv.loops[0][1] == ("call", "builtins.range", (LV_,), ())
+        if not okq and qv is not None and qv.loops and qv.loops[0][1][0] == "call" and qv.loops[0][1][1] == "builtins.range" and len(qv.loops[0][1][2]) == 1 and qv.loops[0][1][2][0][0] == "n":
+            # range(n) with n = len(vectors) bound once
+            nm_ = qv.loops[0][1][2][0][1]
+            dn_ = [x for x in walk_no_nested(dd.node) if isinstance(x, ast.Assign) and len(x.targets) == 1 and isinstance(x.targets[0], ast.Name) and x.targets[0].id == nm_]
+            okq = len(dn_) == 1 and Normalizer(m, dd, inline=False)(dn_[0].value) == LV_
         ctx.ob("R-SDP", dd, "one Q_i per state", bool(okq), "len(vectors) Hermitian variables" if okq else "Q family does not have one member per state")
         dng = sd.dangling()
         ctx.ob("R-SDP", dd, "S1 every constraint reaches the problem", not dng, "ok" if not dng else f"`{unparse(dng[0].node)[:50]}` dropped")
@@ -143,6 +165,14 @@ def run(ctx):  # noqa: C901
         if rb and fam:
             adds = sorted([c for c in calls_in(dd.node) if isinstance(c.func, ast.Attribute) and c.func.attr in ("add_constraint", "add_list_of_constraints")], key=lambda c: c.lineno)
             first = bool(adds) and any(x is fam[0].node for x in ast.walk(adds[0]))
+            if not first and adds and adds[0].args and isinstance(adds[0].args[0], ast.Name):
+                # the family collected in a list first: L = []; L.append(<family member>) ...; problem.add_list_of_constraints(L)
+                ln_ = adds[0].args[0].id
+                apps = [c_ for c_ in walk_no_nested(dd.node) if isinstance(c_, ast.Call) and getattr(c_.func, "attr", "") == "append" and isinstance(c_.func.value, ast.Name) and c_.func.value.id == ln_]
+                if apps and any(any(x is fam[0].node for x in ast.walk(a_)) for a_ in apps):
+                    first = True
+                elif apps:
+                    first = None
             ctx.ob("R-SDP", dd, "S7 duals are read from the per-state constraints (added first)", first, "get_constraint(k), k < n, is the state-k inequality" if first else "another family is added first: the recovered measurement operators are wrong", rb[0])
         oks = any(any(kw.arg == "solver" and unparse(kw.value) == "solver" for kw in c.keywords) for c in sd.solves)
         ctx.ob("R-THREAD", dd, "solver->solve(solver=)", oks, "used" if oks else "solver ignored")
@@ -208,8 +238,12 @@ def run(ctx):  # noqa: C901
             "PPT on every extension copy": [c for c in reach if c.rel == ">>" and c.rhs == ("c", 0) and in_state_loop(c) and len(c.loops) == 2 and c.lhs[0] == "call" and str(c.lhs[1]).endswith("partial_transpose")
                                             and dict(c.lhs[3]).get("rho") == XK and dict(c.lhs[3]).get("dim") == ("n", "dim_list")],
         }
+        # a family that is missing while its siblings are recognised is a dropped constraint; when NONE of the six is recognised the state loop itself
+        # was rewritten (another iteration form, other names) and nothing is decided
+        none_found = not any(fams.values())
         for k, cs in fams.items():
-            ctx.ob("R-SDP", sh, f"for every state: {k}", bool(cs), "present inside the loop over states" if cs else f"the family `{k}` does not reach the problem for every state")
+            ctx.ob("R-SDP", sh, f"for every state: {k}", None if none_found else bool(cs), "present inside the loop over states" if cs else
+                   "the loop over the states is not in the recognised form" if none_found else f"the family `{k}` does not reach the problem for every state", required=not none_found)
         ext = fams["PPT on every extension copy"]
         if ext:
             c = ext[0]
@@ -226,6 +260,19 @@ def run(ctx):  # noqa: C901
             if isinstance(n, ast.Call) and isinstance(n.func, ast.Attribute) and n.func.attr == "append" and isinstance(n.func.value, ast.Name) and n.func.value.id == "obj_func":
                 t = Ns(n.args[0])
                 ok = t[0] == "*" and ("sub", ("n", "probs"), ("n", "k")) in t[1] and any(x[0] == "call" and x[1] == "cvxpy.trace" and x[2][0][0] == "@" and x[2][0][1][0] == ("dag", ("n", "item")) and x[2][0][1][1] == MK for x in t[1])
+                if not ok:
+                    # M_k bound to a local in the loop body (`meas_k = meas[k]`): resolve it once
+                    alias_ = [d_.targets[0].id for d_ in walk_no_nested(sh.node) if isinstance(d_, ast.Assign) and len(d_.targets) == 1 and isinstance(d_.targets[0], ast.Name) and Ns(d_.value) == MK]
+                    # ... or created in the loop body and appended to the list there: `meas_k = Variable(..); meas.append(meas_k)` makes meas_k == meas[k]
+                    alias_ += [c_.args[0].id for c_ in walk_no_nested(sh.node) if isinstance(c_, ast.Call) and getattr(c_.func, "attr", "") == "append" and isinstance(c_.func.value, ast.Name)
+                               and c_.func.value.id == "meas" and c_.args and isinstance(c_.args[0], ast.Name)]
+                    for an_ in alias_:
+                        if True:
+                            from ..rules import _subst
+                            t2 = _subst(t, an_, MK)
+                            ok = t2[0] == "*" and ("sub", ("n", "probs"), ("n", "k")) in t2[1] and any(x[0] == "call" and x[1] == "cvxpy.trace" and x[2][0][0] == "@" and x[2][0][1][0] == ("dag", ("n", "item")) and x[2][0][1][1] == MK for x in t2[1])
+                            if ok:
+                                break
                 ctx.ob("R-ENUM", sh, "objective term k == p_k Tr(Dagger(rho_k) M_k)", ok, "same k for prior, state and operator" if ok else f"objective term {show(t)[:80]}", n)
         rets, _ = return_terms(m, sh, inline=True)
         ctx.ob("R-SDP", sh, "S3 returns the optimum", all("solve" in repr(t) for _, _, t in rets), "problem.solve()")
